@@ -657,6 +657,9 @@ def run_cases(acc, cases):
     """cases: [{'kind','seed','role',...}] executed one after another; a timeout is retried once, alone, before it counts."""
     threading.excepthook = _excepthook          # uncaught exceptions of the node's threads go into the report, not to stderr
     fn = {"inbound": inbound_case, "outbound": outbound_case, "lifecycle": lifecycle_case, "base": base_answers_case}
+    if any(c["kind"] == "app" for c in cases):
+        from . import realapp
+        fn["app"] = realapp.app_case
     for c in cases:
         args = {k: v for k, v in c.items() if k != "kind"}
         del DEATHS[:]
@@ -670,7 +673,9 @@ def run_cases(acc, cases):
         if r["result"] == "ok":
             acc.counters["real_loopback_ok"] += 1
             acc.counters["real_loopback_bytes"] += r.get("bytes", 0)
-            acc.sigs.add("real/%s/%s/%s" % (c["kind"], c.get("role"), c["seed"]))
+            acc.sigs.add("real/%s/%s/%s" % (c["kind"], c.get("role") or c.get("judge"), c["seed"]))
+            acc.counters["real_app_requests_answered"] += r.get("requests_answered", 0)
+            acc.counters["real_app_callers_served"] += r.get("callers", 0)
         elif r["result"] == "violation":
             acc.violation(r["key"], r["detail"], {"real_case": c, "info": {k: v for k, v in r.items() if k != "detail"}, "thread_deaths": list(DEATHS)})
         else:
